@@ -499,6 +499,26 @@ def main():
                 direct.append({"law": "a CSV file yields one sequence whose columns are the header names and whose records are the file's "
                                       "rows in order, with the side-car attributes attached; constraints select what a reference filter selects",
                                "header": names, "rows": rows, "differences": [list(map(str, p))[:3] for p in problems[:5]]})
+        # ------------------------------------------------------------ CSV: header names are taken as they are (blanks included)
+        try:
+            from urllib.parse import unquote as _unq
+            hpath = os.path.join(tmp, "padded.csv")
+            hnames = ["idx", " idx", "name ", "a b"]
+            hrows = [(1.0, 2.0, "x", "p q"), (3.0, 4.0, " y", ""), (5.0, 6.5, "z ", "r")]
+            with open(hpath, "w", newline="") as f:
+                w = csv.writer(f, quoting=csv.QUOTE_NONNUMERIC)
+                w.writerow(hnames)
+                for row in hrows:
+                    w.writerow(row)
+            r.count(("csv-padded-header",))
+            hs = CSVHandler(hpath).dataset["sequence"]
+            got_names = [_unq(k) for k in hs.keys()]
+            got_rows = [tuple(v.item() if hasattr(v, "item") else v for v in rec) for rec in hs.iterdata()]
+            if got_names != hnames or got_rows != hrows:
+                direct.append({"law": "a CSV file yields one sequence whose columns are the header names and whose records are the file's rows",
+                               "header": hnames, "columns": got_names, "rows": hrows, "records": got_rows})
+        except Exception as e:  # noqa
+            direct.append({"law": "a CSV file whose header names carry blanks is opened", "error": repr(e)[:300]})
     finally:
         shutil.rmtree(tmp, ignore_errors=True)
 
